@@ -29,13 +29,9 @@ _PRISTINE = None
 
 
 def _mutable_globals():
-    out = []
-    for name in sorted(sys.modules):
-        if name.startswith('py_stringsimjoin') and sys.modules[name] is not None:
-            for k, v in vars(sys.modules[name]).items():
-                if not k.startswith('__') and isinstance(v, (dict, list, set)) and k != 'COMP_OP_MAP':
-                    out.append((name, k, v))
-    return out
+    """(label, container) for module globals, mutable default arguments and class attributes."""
+    from checks.entrypoints import lib_hidden_state
+    return list(lib_hidden_state())
 
 
 def default_tokenizers():
@@ -54,15 +50,18 @@ def pristine():
     """Snapshot (once per process, before any history ran) of what a fresh process starts with."""
     global _PRISTINE
     if _PRISTINE is None:
-        _PRISTINE = {'globals': [(n, k, copy.deepcopy(v)) for n, k, v in _mutable_globals()],
+        _PRISTINE = {'globals': [(label, cont, copy.deepcopy(cont)) for label, cont in _mutable_globals()],
                      'deftok': [copy.deepcopy(vars(t)) for t in default_tokenizers()]}
     return _PRISTINE
 
 
 def restore_fresh_process_state():
     p = pristine()
-    for (n, k, snap) in p['globals']:
-        cur = getattr(sys.modules[n], k, None)
+    known = {id(cont) for _, cont, _ in p['globals']}
+    for label, cont in _mutable_globals():
+        if id(cont) not in known:           # a container that did not exist at import time: empty it
+            cont.clear()
+    for (label, cur, snap) in p['globals']:
         if isinstance(cur, dict):
             cur.clear()
             cur.update(copy.deepcopy(snap))
@@ -222,6 +221,13 @@ def build_alphabet(reduced=False):
                         (lambda tn, op, t: lambda O: ssj.edit_distance_join(
                             O['A'], O['B'], 'id', 'id', 's', 's', t, op, False, tokenizer=O[tn],
                             show_progress=False))(tn, op, t))
+    # pair-level token order: a pair whose verdict depends on the order, and a call that would bump the
+    # frequencies of its non-shared tokens if they were remembered between calls
+    for Fn in ('PrefixFilter', 'PositionFilter', 'SuffixFilter'):
+        add('%s.filter_pair(order-sensitive pair)' % Fn,
+            (lambda Fn: lambda O: getattr(ssj, Fn)(O['ws_set'], 'JACCARD', 0.8).filter_pair('a b c d', 'a b e f'))(Fn))
+    add('PrefixFilter.filter_pair(c d e f twice)',
+        lambda O: ssj.PrefixFilter(O['ws_set'], 'JACCARD', 0.8).filter_pair('c d e f', 'c d e f'))
     # a second pair of tables: state left behind by a call on A/B would show up here
     add('PositionFilter.filter_tables(A2,B2,ws_set)',
         lambda O: ssj.PositionFilter(O['ws_set'], 'JACCARD', 0.3).filter_tables(
